@@ -30,9 +30,11 @@ def linearizable(hist, init, apply_fn, maxops=14):
         minret = min([rets[i] for i in range(n) if not (done >> i) & 1] + [INF])
         for i in range(n):
             if (done >> i) & 1 or calls[i] > minret: continue
-            st2, r = apply_fn(state, hist[i][1], hist[i][2])
-            if hist[i][5] is None or r == hist[i][3]:
-                if rec(done | (1 << i), st2): return True
+            res = apply_fn(state, hist[i][1], hist[i][2])
+            if isinstance(res, tuple): res = [res]
+            for st2, r in res:
+                if hist[i][5] is None or r == hist[i][3]:
+                    if rec(done | (1 << i), st2): return True
         return False
     return rec(0, init)
 
